@@ -460,7 +460,11 @@ def _offset_from_spaces(dom, ran):
     offset_float = diff_l / dom.cell_sides
     offset = np.around(offset_float).astype(int)
     for i in range(dom.ndim):
-        if affected[i] and not np.isclose(offset[i], offset_float[i]):
+        # Axes that are not resized can be nonuniform, then there is no
+        # cell side to compare with
+        uniform = dom.is_uniform_byaxis[i] and ran.is_uniform_byaxis[i]
+        if ((affected[i] or uniform) and
+                not np.isclose(offset[i], offset_float[i])):
             raise ValueError('in axis {}: range is shifted relative to domain '
                              'by a non-multiple {} of cell_sides'
                              ''.format(i, offset_float[i] - offset[i]))
